@@ -2,6 +2,7 @@
    in the same syntax, or `PANIC` -/
 import Gojq.Model.Optimize
 import Gojq.Model.OptVM
+import Gojq.Model.SafeVM
 import Driver.Common
 open Gojq.Opt
 
@@ -31,5 +32,17 @@ def runWf (line : String) : String :=
   | none => "?parse"
   | some is => if Gojq.OptVM.wfCheckView is.toArray then "wf" else "not-wf"
 
+/-- stream `safe` (C08): the static hypothesis of `vm_total_wf_partial` (Props/C08VM.lean) on a dumped
+    code (`safeCheckView`, proved equal to `safeCheck` through the dump `viewS`); a rejected code is
+    answered with the first pc the verifier rejects -/
+def runSafe (line : String) : String :=
+  let toks := (line.splitOn " ").filter (· ≠ "")
+  match toks.mapM Gojq.SafeVM.parseDump with
+  | none => "?parse"
+  | some is =>
+    if Gojq.SafeVM.safeCheckView is.toArray then "safe"
+    else "not-safe pc=" ++ toString (Gojq.SafeVM.firstBad (is.toArray.map Gojq.SafeVM.shapeV) 0)
+
 def main (args : List String) : IO UInt32 :=
-  Driver.main [("codeops", runPass optimizeCodeOps), ("tailrec", runPass optimizeTailRec), ("wf", runWf)] args
+  Driver.main [("codeops", runPass optimizeCodeOps), ("tailrec", runPass optimizeTailRec), ("wf", runWf),
+    ("safe", runSafe)] args
